@@ -1057,6 +1057,12 @@ WITNESSES = [
     {"name": "weights-squared-residual", "file": _F, "rule": "C05.c", "old": "            r = numpy.reciprocal(numpy.maximum(epsilon, deltas))\n", "new": "            r = numpy.reciprocal(numpy.maximum(epsilon, deltas)) ** 1\n            r = r * r\n"},
     {"name": "error-not-weighted", "file": _F, "rule": "C05.c", "old": "                W *= sample_weight\n                epsilon *= sample_weight\n", "new": "                W *= sample_weight\n"},
 ]
+# witnesses of the rules added after the ninth round of independent changes
+WITNESSES += [
+    {"name": "targets-cast-to-the-features-dtype", "file": _F, "rule": "C05.e", "old": "        if self.fit_intercept:\n            Xm = numpy.hstack([X, numpy.ones((X.shape[0], 1))])\n", "new": "        y = numpy.asarray(y, dtype=X.dtype)\n        if self.fit_intercept:\n            Xm = numpy.hstack([X, numpy.ones((X.shape[0], 1))])\n"},
+]
+
+
 TWINS = [
     {"name": "score-factor-order", "file": _F, "old": "epsilon *= (1 - mult) * 2", "new": "epsilon *= 2 * (1 - mult)"},
     {"name": "epsilon-updates-reordered", "file": _F, "old": "            mult[sign > 0] *= quantile\n            mult[sign < 0] *= 1 - quantile\n", "new": "            mult[sign < 0] *= 1 - quantile\n            mult[sign > 0] *= quantile\n"},
